@@ -125,7 +125,7 @@ func (g *worldGen) scalar() *WType {
 		return &WType{K: "const", Const: Pick(r, []any{"fixed", "other", "A"})}
 	case 7:
 		if r.Bool() {
-			return &WType{K: "enum", Enum: Pick(r, [][]any{{"a", "b", "c"}, {"up", "down"}, {"1", "2"}, {"with space", "x-y"}, {"", "n"}})}
+			return &WType{K: "enum", Enum: Pick(r, [][]any{{"a", "b", "c"}, {"up", "down"}, {"1", "2"}, {"with space", "x-y"}, {"", "n"}, {" lead", "trail ", "mid dle"}})}
 		}
 		return &WType{K: "enum", Enum: Pick(r, [][]any{{1, 2, 3}, {0, 10}, {-1, 1}})}
 	default:
